@@ -214,15 +214,7 @@ def run(ctx):
                   key="strong reference to EvalFuncVar", node=bad or cls, rel=cuid.split("::")[0])
 
     ctx.rule("R09.5", "a global context is stopped before it is dropped/replaced and when its load fails; stop() stops every trigger and manager and clears the sets", floor=6)
-    f = program.func("global_ctx.py::GlobalContext.stop")
-    txt = norm(f)
-    for piece, what in (("func.trigger_stop()", "legacy triggers stopped"), ("dm.stop()", "decorator managers stopped"),
-                        ("self.triggers = set()", "triggers cleared"), ("self.triggers_delay_start = set()", "delayed triggers cleared"),
-                        ("self.dms = set()", "managers cleared"), ("self.dms_delay_start = set()", "delayed managers cleared")):
-        ctx.check(piece in txt, "R09.5", "global_ctx.py::GlobalContext.stop", what, msg=f"GlobalContext.stop no longer contains `{piece}`", key=what, node=f, rel="global_ctx.py")
-    loops = [l for l in body_walk(f) if isinstance(l, ast.For)]
-    ctx.check(all("self.triggers" == norm(l.iter) or "self.dms" == norm(l.iter) for l in loops) and len(loops) == 2, "R09.5", "global_ctx.py::GlobalContext.stop",
-              "stop iterates over all registered triggers and managers", msg=f"GlobalContext.stop loops over {[norm(l.iter) for l in loops]}", key="stop loops", node=f, rel="global_ctx.py")
+    context_stop_table(ctx, program, "R09.5")   # stop() stops every registered trigger/manager, clears all four sets, switches auto-start off
     # delete(): stop precedes removal
     f = program.func("global_ctx.py::GlobalContextMgr.delete")
     seq = [("stop" if isinstance(n, ast.Call) and (call_name(n) or "").endswith(".stop") else "del") for n in body_walk(f)
